@@ -49,11 +49,13 @@ namespace smt
             return at_expr->second;
         else
         { // we need to create a new slack variable..
-            assert(sat->root_level());
             const var slack = new_var();
             exprs.emplace(s_expr, slack);
-            c_bounds[lb_index(slack)] = {lb(l), TRUE_lit}; // we set the lower bound at the lower bound of the given linear expression..
-            c_bounds[ub_index(slack)] = {ub(l), TRUE_lit}; // we set the upper bound at the upper bound of the given linear expression..
+            if (sat->root_level())
+            {                                                  // the current bounds hold forever, hence they can be inherited by the new variable..
+                c_bounds[lb_index(slack)] = {lb(l), TRUE_lit}; // we set the lower bound at the lower bound of the given linear expression..
+                c_bounds[ub_index(slack)] = {ub(l), TRUE_lit}; // we set the upper bound at the upper bound of the given linear expression..
+            } // otherwise (e.g., the executor freezing an expression) the current bounds might not survive backtracking: the new variable starts unbounded..
             vals[slack] = value(l);                        // we set the initial value of the new slack variable at the value of the given linear expression..
             // we substitute the basic variables, if any, so as to keep the tableau in canonical form..
             lin expr = l;
